@@ -12,15 +12,15 @@ LEVEL = 'exploration'
 RULE = (
     'random programs over the whole API biased towards fan-out (many waiters per flag / '
     'tracked value / resource, channel broadcasts, queue closes, scope aborts); every program '
-    'is executed in 7 fresh processes (hash seed 0/1/random, USIM_WAITQUEUE heap/SD, -O, heap '
-    'junk between object constructions) and twice per process; the normalised event logs '
+    'is executed in 9 fresh processes (hash seed 0/1/random, USIM_WAITQUEUE heap/SD, -O, heap '
+    'junk between object constructions, cyclic GC off / at every allocation) and twice per process; the normalised event logs '
     '(activity, step, time, outcome - no addresses) and the activation traces must be '
     'byte-identical; the kernel FIFO monitor runs on every activation; non-trivial = at least '
     'one time step with >= 2 distinct runnable activities; distinct = distinct event-log digest'
 )
 LEVEL_TEXT = (
     'Exploration by differential runtime monitoring: the event log of the real code is recorded '
-    'for each generated program under 7 process configurations and compared; a kernel monitor '
+    'for each generated program under 9 process configurations and compared; a kernel monitor '
     'checks FIFO order of same-time activations against scheduling sequence numbers on every '
     'activation. Held = all logs identical on the programs explored.')
 TECHNIQUE = 'runtime monitoring: differential event-log comparison across process configurations + kernel FIFO monitor'
@@ -41,6 +41,8 @@ CONFIGS = [
     ('sd', {'PYTHONHASHSEED': '0', 'USIM_WAITQUEUE': 'SD'}, False),
     ('opt', {'PYTHONHASHSEED': '2'}, True),
     ('sd-opt-junk', {'PYTHONHASHSEED': '3', 'USIM_WAITQUEUE': 'SD', 'VERIF_JUNK': '9'}, True),
+    ('gc-off', {'PYTHONHASHSEED': '4', 'VERIF_GC': 'off'}, False),
+    ('gc-aggressive', {'PYTHONHASHSEED': '5', 'VERIF_GC': 'aggressive', 'VERIF_JUNK': '2'}, False),
 ]
 BATCH = 40
 
@@ -56,7 +58,7 @@ def make_case(seed, index, tier):
 def trace_config(config, seed, first, last, full=None):
     name, extra, opt = config
     env = dict(os.environ)
-    for key in ('USIM_WAITQUEUE', 'VERIF_JUNK', 'PYTHONHASHSEED'):
+    for key in ('USIM_WAITQUEUE', 'VERIF_JUNK', 'PYTHONHASHSEED', 'VERIF_GC'):
         env.pop(key, None)
     env.update(extra)
     env['PYTHONPATH'] = VERIF
